@@ -14,33 +14,33 @@ import (
 
 type Roles struct {
 	// functions (origin functions for generics)
-	ToProto, FromProto             *ssa.Function
-	NewSenderFC, NewSenderPlain    *ssa.Function
-	NewReceiverFC, NewReceiverPlain *ssa.Function
-	ServeTunnel, NewTunnelChannel  *ssa.Function
-	NewReverseChannel              *ssa.Function
-	InSlice, SupportedRevisions    *ssa.Function
-	OpenTunnel, OpenReverseTunnel  *ssa.Function
-	Unregister                     *ssa.Function
+	ToProto, FromProto                                    *ssa.Function
+	NewSenderFC, NewSenderPlain                           *ssa.Function
+	NewReceiverFC, NewReceiverPlain                       *ssa.Function
+	ServeTunnel, NewTunnelChannel                         *ssa.Function
+	NewReverseChannel                                     *ssa.Function
+	InSlice, SupportedRevisions                           *ssa.Function
+	OpenTunnel, OpenReverseTunnel                         *ssa.Function
+	Unregister                                            *ssa.Function
 	RegAdd, RegRemove, RegPick, RegReady, RegWait, RegAll *ssa.Function
-	ForKey                         *ssa.Function // reverseChannelsForKey
-	AddInstance, IsClosing, IsClosed *ssa.Function
+	ForKey                                                *ssa.Function // reverseChannelsForKey
+	AddInstance, IsClosing, IsClosed                      *ssa.Function
 	// interface method names
 	Send, Accept, Dequeue, Close, Cancel string
 	// types
 	Registry *types.Named
 	// field names
-	RegChans, RegIdx, RegAvail                   string
-	RTSState, RTSInstances                       string
-	TSHReverse, TSHByKey, TSHAffinity            string
-	TSHOnConnect, TSHOnDisconnect                string
-	StreamCtx, StreamCh, StreamCarrier           string // per stream type the names may differ; these are CS's; SS's in SSCtx
-	SSCtx                                        string
-	HeadersTargets, TrailersTargets              string
-	ChUseRevision, ChSettings, ChTunnelMetadata  string
-	ChAwaitSettings                              string
-	DisableFlag                                  string
-	How map[string]string
+	RegChans, RegIdx, RegAvail                  string
+	RTSState, RTSInstances                      string
+	TSHReverse, TSHByKey, TSHAffinity           string
+	TSHOnConnect, TSHOnDisconnect               string
+	StreamCtx, StreamCh, StreamCarrier          string // per stream type the names may differ; these are CS's; SS's in SSCtx
+	SSCtx                                       string
+	HeadersTargets, TrailersTargets             string
+	ChUseRevision, ChSettings, ChTunnelMetadata string
+	ChAwaitSettings                             string
+	DisableFlag                                 string
+	How                                         map[string]string
 }
 
 func (w *World) origFn(f *ssa.Function) *ssa.Function {
@@ -161,7 +161,7 @@ func (w *World) Roles() *Roles {
 			return false
 		}
 		found := false
-		allInstrs(f, func(in ssa.Instruction) {
+		allInstrsLocal(f, func(in ssa.Instruction) {
 			if al, ok := in.(*ssa.Alloc); ok && al.Comment == "complit" {
 				if n := namedOf(al.Type()); n != nil && n.Obj() == nt.Obj() {
 					found = true
@@ -177,7 +177,7 @@ func (w *World) Roles() *Roles {
 			return false
 		}
 		found := false
-		allInstrs(f, func(in ssa.Instruction) {
+		allInstrsLocal(f, func(in ssa.Instruction) {
 			if ci, ok := in.(ssa.CallInstruction); ok && w.sameFn(staticCallee(ci), callee) {
 				found = true
 			}
@@ -229,11 +229,11 @@ func (w *World) Roles() *Roles {
 	})
 	// unregister: the bound method handed to NewReverseChannel as its last argument
 	if r.OpenReverseTunnel != nil && r.NewReverseChannel != nil {
-		allInstrs(r.OpenReverseTunnel, func(in ssa.Instruction) {
+		allInstrsLocal(r.OpenReverseTunnel, func(in ssa.Instruction) {
 			if call, ok := in.(*ssa.Call); ok && w.sameFn(staticCallee(call), r.NewReverseChannel) {
 				if mc, ok := call.Call.Args[len(call.Call.Args)-1].(*ssa.MakeClosure); ok {
 					if bf, ok := mc.Fn.(*ssa.Function); ok {
-						allInstrs(bf, func(x ssa.Instruction) {
+						allInstrsLocal(bf, func(x ssa.Instruction) {
 							if ci, ok := x.(ssa.CallInstruction); ok {
 								if g := staticCallee(ci); g != nil && w.inRoot(g) {
 									r.Unregister = g
@@ -413,7 +413,7 @@ func (w *World) Roles() *Roles {
 		}
 		// connect = called directly, disconnect = deferred in the reverse-open function
 		if len(cbs) == 2 && r.OpenReverseTunnel != nil {
-			allInstrs(r.OpenReverseTunnel, func(in ssa.Instruction) {
+			allInstrsLocal(r.OpenReverseTunnel, func(in ssa.Instruction) {
 				switch x := in.(type) {
 				case *ssa.Defer:
 					if fr, _, ok := loadedField(x.Call.Value); ok && (fr.Field == cbs[0] || fr.Field == cbs[1]) {
@@ -466,7 +466,7 @@ func (w *World) Roles() *Roles {
 		if len(tg) == 2 && a.ClientFinish != nil {
 			for k, name := range tg {
 				used := false
-				allInstrs(a.ClientFinish, func(in ssa.Instruction) {
+				allInstrsLocal(a.ClientFinish, func(in ssa.Instruction) {
 					if fa, ok := in.(*ssa.FieldAddr); ok && fieldName(fa.X.Type(), fa.Field) == name {
 						used = true
 					}
@@ -483,7 +483,7 @@ func (w *World) Roles() *Roles {
 	r.ChTunnelMetadata = fieldOfType(a.Ch, func(t types.Type) bool { return typeIs(t, "grpc/metadata", "MD") }, "tunnelMetadata")
 	r.ChAwaitSettings = "awaitSettings"
 	if a.ClientLoop != nil && a.Ch != nil {
-		allInstrs(a.ClientLoop, func(in ssa.Instruction) {
+		allInstrsLocal(a.ClientLoop, func(in ssa.Instruction) {
 			if call, ok := in.(*ssa.Call); ok && calleeName(call) == "builtin.close" {
 				if fr, _, ok := loadedField(call.Call.Args[0]); ok && fr.Type == a.Ch.Obj().Name() {
 					r.ChAwaitSettings = fr.Field
@@ -493,7 +493,7 @@ func (w *World) Roles() *Roles {
 	}
 	r.DisableFlag = "disableFlowControl"
 	if r.SupportedRevisions != nil {
-		allInstrs(r.SupportedRevisions, func(in ssa.Instruction) {
+		allInstrsLocal(r.SupportedRevisions, func(in ssa.Instruction) {
 			if ifi, ok := in.(*ssa.If); ok {
 				if fr, _, ok := loadedField(normFact(EdgeFact{ifi.Cond, true}).Cond); ok {
 					r.DisableFlag = fr.Field
@@ -674,7 +674,7 @@ func (w *World) accessorKey(accessor string) string {
 		return ""
 	}
 	out := ""
-	allInstrs(fn, func(in ssa.Instruction) {
+	allInstrsLocal(fn, func(in ssa.Instruction) {
 		call, ok := in.(*ssa.Call)
 		if !ok || !call.Call.IsInvoke() || call.Call.Method.Name() != "Value" || len(call.Call.Args) != 1 {
 			return
